@@ -196,6 +196,85 @@ def api_case(rng, bits, force=None):
     return "api " + " ".join(map(str, L)), "api-%d-%d-k%d-%s" % (bits, nc, kind, mode)
 
 
+def susp_case(rng, bits=8):
+    """single-pass Huffman (8-bit, no optimize_coding) through a suspending destination manager:
+    small buffers so that the buffer fills in the middle of an MCU row, random refusal schedule"""
+    nc = rng.choice([1, 3, 3, 4])
+    w, h = rng.range(17, 220), rng.range(8, 48)
+    if rng.chance(1, 4):
+        w, h = h, w
+    kind = rng.choice([1, 2, 2, 3, 5, 5, 5, 4])
+    p1 = rng.range(1, 9) if kind == 4 else rng.choice([0, 2, 10, 50])
+    L = [bits, nc, w, h, kind, p1, rng.below(1 << 40)]
+    if rng.chance(2, 3):
+        L += [rng.choice([50, 75, 90, 95, 100, rng.range(1, 100)]), 0, 0, 0, -1, -1, -1, -1]
+    else:
+        nt = rng.range(1, min(4, nc))
+        L += [-1, 0, 0, nt]
+        for _ in range(nt):
+            L += gen_qtable(rng, bits, rng.choice(["low", "low", "mix", "pow2"]))
+        L += [rng.below(nt) for _ in range(4)]
+    L += [rng.choice([64, 128, 256, 512, 700, 1024, 1500, 4096, rng.range(32, 3000)]), rng.choice([100, 100, 60, 30]), rng.below(1 << 40)]
+    return "api " + " ".join(map(str, L)), "susp-%d-%d-k%d" % (bits, nc, kind)
+
+
+def seq_case(rng, bits):
+    """2..5 images on ONE compression object, quantisation tables changed in between (every kind of
+    subset of the 64 entries, three ways of installing them), abbreviated streams, one decoder"""
+    nc = rng.choice([1, 3, 4])
+    ntu = rng.range(1, min(nc, 3))
+    tq = [rng.below(ntu) for _ in range(4)]
+    prelude = 1 if rng.chance(1, 5) else 0
+    optimize = rng.below(2)
+    nframes = rng.range(2, 5)
+    cur = {}
+    L = [bits, nc, prelude] + tq + [nframes]
+
+    def new_table(t):
+        old = cur.get(t)
+        how = rng.choice(["last32", "last32", "first32", "one", "subset", "all", "same", "lastrow", "tail"])
+        if old is None or how == "all":
+            q = gen_qtable(rng, bits, rng.choice(["low", "low", "mid", "mix", "pow2"]))
+        else:
+            q = list(old)
+            idx = {"last32": range(32, 64), "first32": range(0, 32), "one": [rng.below(64)], "lastrow": range(56, 64),
+                   "tail": range(rng.range(33, 63), 64), "same": [],
+                   "subset": [i for i in range(64) if rng.chance(1, 3)]}[how]
+            for i in idx:
+                q[i] = rng.choice([1, 2, 3, rng.range(1, 255), rng.range(1, 255), rng.range(1, 2000)])
+        cur[t] = q
+        return q, how
+
+    hows = []
+    for f in range(nframes):
+        w, h = rng.range(1, 40), rng.range(1, 40)
+        kind = rng.choice([0, 1, 2, 3, 5, 5])
+        M = (1 << bits) - 1
+        p1 = rng.range(0, M) if kind == 0 else rng.choice([0, 2, 10, 50])
+        wat = 1 if (f == 0 and not prelude) else (1 if rng.chance(1, 4) else 0)
+        ops = []
+        if f == 0:
+            for t in range(ntu):
+                if t >= 2 or rng.chance(2, 3):
+                    q, how = new_table(t)
+                    ops.append([0, t] + q)
+        else:
+            for _ in range(rng.choice([0, 1, 1, 1, 2])):
+                if rng.chance(1, 6) and ntu <= 2:
+                    ops.append([1, rng.range(1, 100)])
+                    cur.clear()
+                else:
+                    t = rng.below(ntu)
+                    q, how = new_table(t)
+                    hows.append(how)
+                    m = rng.choice([0, 0, 2, 3])
+                    ops.append([m, t] + q + ([100] if m == 3 else []))
+        L += [w, h, kind, p1, rng.below(1 << 40), wat, optimize, len(ops)]
+        for o in ops:
+            L += o
+    return "seq " + " ".join(map(str, L)), "seq-%d-%d-%s" % (bits, nc, "+".join(sorted(set(hows))) or "none")
+
+
 # ------------------------------------------------------------------ oracles
 def check_unit(ctx, fl, cfgline, bits, line, kind, meta, impl, eps):
     """property-level judgement of ONE implementation output line; returns a key for distinctness"""
@@ -268,11 +347,16 @@ def check_api(ctx, fl, line, kind, impl, eps):
     if not impl.startswith("api ok "):
         ctx.violation("compress/decompress round trip failed: " + impl[:60], rep, signature="api-fail:" + impl[:12])
         return None
-    hx, blk = impl[7:].split(" |")
+    parts = impl[7:].split(" |")
+    hx, blk = parts[0], parts[1]
+    nsusp = int(parts[2].split("=")[1]) if len(parts) > 2 and "susp=" in parts[2] else None
     prec, tabs, comps = parse_hdr(hx)
     f = line.split()
     const = f[5] == "0"
     worst = 0.0
+    if nsusp is not None:
+        eps["suspensions"] = eps.get("suspensions", 0) + nsusp
+        eps["susp_cases_with_suspension"] = eps.get("susp_cases_with_suspension", 0) + (1 if nsusp else 0)
     for b in blk.split():
         c, bx, by, n, sse, ma = (int(t) for t in b.split(":"))
         q = tabs.get(comps[c][2])
@@ -293,6 +377,40 @@ def check_api(ctx, fl, line, kind, impl, eps):
                           rep, signature="api-const")
             break
     return (kind, round(worst, 3), len(blk))
+
+
+def check_seq(ctx, fl, line, kind, impl, eps):
+    """every frame of a multi-image sequence: bound from the tables the DECODER holds at that point,
+    i.e. the DQT segments of this and all earlier streams of the sequence, parsed here"""
+    rep = {"stream": "api", "flavour": fl, "case": line, "impl": impl[:3000]}
+    if not impl.startswith("seq ok "):
+        ctx.violation("multi-image compress/decompress sequence failed: " + impl[:60], rep, signature="seq-fail:" + impl[:12])
+        return None
+    bits = int(line.split()[1])
+    held, worst, nfr = {}, 0.0, 0
+    for fi, fr in enumerate(impl[7:].split(";")):
+        hx, blk = fr.split("|")
+        prec, tabs, comps = parse_hdr(hx.strip())
+        held.update(tabs)
+        if not comps:
+            continue            # tables-only prelude
+        nfr += 1
+        for b in blk.split():
+            c, bx, by, n, sse, ma = (int(t) for t in b.split(":"))
+            q = held.get(comps[c][2])
+            if q is None:
+                ctx.violation("frame %d: component %d uses DQT %d which no stream of the sequence defined" % (fi, c, comps[c][2]), rep, signature="seq-no-dqt")
+                return None
+            rms = math.sqrt(sse / 64.0)
+            bound = rms_bound(q, bits)
+            worst = max(worst, rms / bound)
+            eps["ratio"] = max(eps["ratio"], rms / bound)
+            if rms > bound:
+                ctx.violation("image %d of a sequence on one compression object (%s DQT in its own stream): component %d block (%d,%d) "
+                              "RMS error %.3f > bound %.3f from the table the decoder holds" % (
+                                  fi, "with" if comps[c][2] in tabs else "no", c, bx, by, rms, bound), rep, signature="seq-block-rms")
+                return (kind, "bad")
+    return (kind, round(worst, 3), nfr)
 
 
 # ------------------------------------------------------------------ driver
@@ -326,7 +444,7 @@ def run_stream(ctx, exe, lines, what, rep, prefix=()):
 
 def run(ctx):
     rng = ctx.rng
-    ctx.regen(["DctConst"])
+    ctx.regen(["DctConst", "C07Ctl"])
     ctx.prove()
     drv = ctx.model_driver()
     flavours = ["simd", "plain"] + (["asan"] if ctx.thorough() else [])
@@ -347,8 +465,8 @@ def run(ctx):
                 l = l.strip()
                 if not l or l.startswith("#"):
                     continue
-                if l.startswith("api "):
-                    capi.append((l, "corpus-api"))
+                if l.startswith("api ") or l.startswith("seq "):
+                    capi.append((l, "corpus-" + l[:3]))
                 else:
                     b, rest = l.split(" ", 1)
                     cunit[int(b)].append(rest)
@@ -455,12 +573,18 @@ def run(ctx):
             for i in range(na):
                 bits = 8 if i % 2 == 0 else 12
                 acases.append(api_case(arng, bits, force=0 if i % 5 == 0 else None))
+            for i in range(ctx.n(260, 4000)):
+                acases.append(susp_case(arng))
+            for i in range(ctx.n(300, 4000)):
+                acases.append(seq_case(arng, 12 if i % 4 == 3 else 8))
         for fl in flavours:
             exe = ctx.cc("c07_api", ["c07_api.c"], fl, libs=("jpeg",))
             res = run_stream(ctx, exe, [c[0] for c in acases], "c07 API harness " + fl, {"stream": "api", "flavour": fl})
             for (line, kind), impl in zip(acases, res):
-                key = check_api(ctx, fl, line, kind, impl, eps) if impl != "<no output>" else None
-                ctx.count(kind.rsplit("-", 1)[0] if kind.startswith("api-") else kind, 1, key)
+                key = None
+                if impl != "<no output>":
+                    key = check_seq(ctx, fl, line, kind, impl, eps) if line.startswith("seq ") else check_api(ctx, fl, line, kind, impl, eps)
+                ctx.count(kind.rsplit("-", 1)[0] if kind.startswith(("api-", "seq-")) else kind, 1, key)
             if acases:
                 ctx.sample({"flavour": fl, "case": acases[-1][0][:200], "impl": res[-1][:200]})
 
@@ -470,6 +594,8 @@ def run(ctx):
                            "max_abs_idct_islow_minus_IDCT_samples_8bit": round(eps["idct8"], 4),
                            "max_abs_idct_islow_minus_IDCT_samples_12bit": round(eps["idct12"], 4),
                            "max_block_rms_over_bound": round(eps["ratio"], 4),
+                           "suspending_destination_cases_that_suspended": eps.get("susp_cases_with_suspension", 0),
+                           "output_suspensions_total": eps.get("suspensions", 0),
                            "max_block_rms_minus_sqrt_sum_(q/2)^2/64": round(eps["excess"], 4),
                            "c": C_COEF, "allowance": ALLOWANCE}
     ctx.cov["rule"] = ("unit: every divisor class of compute_reciprocal (powers of two and neighbours, 8q, random), coefficient values at "
